@@ -1,5 +1,5 @@
 import Dashu.Proofs.Text.Grammar
-import Dashu.Proofs.Text.Bytes
+import Dashu.Proofs.Text.BytesDecode
 /-
   C07 — Integer text and byte encodings round-trip and match the reference digits.
 
@@ -138,11 +138,33 @@ theorem le_bytes_round_trip (n : Nat) :
     (leBytesSpec n).getLast? ≠ some 0 :=
   ⟨ofLeBytesSpec_leBytesSpec n, (leBytesSpec_minimal n).1, (leBytesSpec_minimal n).2⟩
 
+/-- the word-level unsigned encoder and decoder of convert.rs (`to_le_bytes`: inline double word and
+    heap `words_to_le_bytes`; `from_le_bytes`: `dword_from_le_bytes_partial` and `from_le_bytes_large`)
+    are the positional representation, for every word size that is a multiple of 8, every number
+    and every byte string; hence mutually inverse (big-endian: mirror image) -/
+theorem ubig_bytes_model (W : Nat) (h8 : 8 ∣ W) (hW : 8 ≤ W) (n : Nat) (bytes : List Nat) :
+    toLeBytes W n = leBytesSpec n ∧ fromLeBytes W bytes = ofLeBytesSpec bytes ∧
+    fromLeBytes W (toLeBytes W n) = n ∧ fromBeBytes W (toBeBytes W n) = n :=
+  ⟨toLeBytes_eq W n h8 hW, fromLeBytes_eq W h8 hW bytes, fromLeBytes_toLeBytes W n h8 hW,
+   fromBeBytes_toBeBytes W n h8 hW⟩
+
 /-- two's complement bytes: decoding the encoding returns the integer — for every integer,
     including the negative exact powers `-(2^(8k))` -/
 theorem signed_bytes_round_trip (z : Int) :
     ofSignedLeBytesSpec (signedLeBytesSpec z) = z ∧ ∀ b ∈ signedLeBytesSpec z, b < 256 :=
   ⟨ofSignedLeBytesSpec_signedLeBytesSpec z, signedLeBytesSpec_bytes z⟩
+
+/-- the word-level signed encoder and decoder of convert.rs (`to_signed_le_bytes`: inline path, heap
+    path with `sub_one_in_place`, flipped `words_to_le_bytes::<true>` and the `resize` of fix dcc404d;
+    `from_signed_le_bytes`: one-padded inline path and `from_le_bytes_large::<true>` with
+    `add_one_in_place`) are the two's complement specification, and **mutually inverse for every
+    integer** — in particular for `-(2^(8k))`, where the unpatched code lost the sign byte -/
+theorem ibig_bytes_model (W : Nat) (h8 : 8 ∣ W) (hW : 8 ≤ W) (z : Int) (bytes : List Nat)
+    (hb : ∀ b ∈ bytes, b < 256) :
+    ibigToLeBytes W z = signedLeBytesSpec z ∧ fromSignedLeBytes W bytes = ofSignedLeBytesSpec bytes ∧
+    fromSignedLeBytes W (ibigToLeBytes W z) = z ∧ fromSignedBeBytes W (ibigToBeBytes W z) = z :=
+  ⟨ibigToLeBytes_eq W h8 hW z, fromSignedLeBytes_eq W h8 hW bytes hb,
+   (fromSigned_toSigned W h8 hW z).1, (fromSigned_toSigned W h8 hW z).2⟩
 
 /-- chunks: `from_chunks(to_chunks(n, k), k) = n` for every chunk size `k ≥ 1` (the documented
     precondition is `k ≠ 0`); chunks are `< 2^k` and the top chunk is non-zero -/
@@ -166,5 +188,8 @@ example : parseRadix 64 true (fmtModel 64 (.inRadix 36) { alt := true } (-(2 ^ 2
   print_parse_round_trip 64 (by decide) 36 _ true false (by decide)
 example : ofSignedLeBytesSpec (signedLeBytesSpec (-(2 ^ 128))) = -(2 ^ 128) :=
   (signed_bytes_round_trip _).1
+example : fromSignedLeBytes 64 (ibigToLeBytes 64 (-(2 ^ 128))) = -(2 ^ 128) :=
+  (ibig_bytes_model 64 (by decide) (by decide) _ [] (by simp)).2.2.1
+example : (8 : Nat) ∣ 16 ∧ (8 : Nat) ∣ 32 ∧ (8 : Nat) ∣ 64 := by decide
 
 end Dashu.Props.C07
